@@ -85,6 +85,7 @@ type world struct {
 	hookFn    func(ctx context.Context)
 	notifyFn  func(id int64) // user code inside a close notification (runs inside the sweep of Runtime.Close)
 	clock     atomic.Int64
+	hostCompiles atomic.Int64
 	notif     sync.Map // id -> *atomic.Int64
 	fsClosed  sync.Map // id -> *atomic.Int64
 	fsOpened  sync.Map // id -> *atomic.Int64
@@ -431,7 +432,13 @@ func (w *world) run(ctx context.Context, th *thread, op Op) (ret []any) {
 				th.inHostCompile = true
 				cctx = yctx{ctx, th}
 			}
-			cm, err = w.r.NewHostModuleBuilder("hc").NewFunctionBuilder().WithFunc(func() {}).Export("f").Compile(cctx)
+			if (th == nil || !th.forced) && w.hostCompiles.Add(1)%2 == 0 {
+				// every other host compilation outside the forced schedules: a host module WITHOUT functions (an empty
+				// type section): the closed-runtime answer must not depend on what the module contains
+				cm, err = w.r.NewHostModuleBuilder("hc").Compile(cctx)
+			} else {
+				cm, err = w.r.NewHostModuleBuilder("hc").NewFunctionBuilder().WithFunc(func() {}).Export("f").Compile(cctx)
+			}
 			if th != nil {
 				th.inHostCompile = false
 			}
